@@ -592,6 +592,19 @@ Inductive eq_case := EqCase (a b : list proto) (r : bool).
 Definition eq_case_ok (c : eq_case) : bool :=
   match c with EqCase a b r => Bool.eqb (equal (new a) (new b)) r end.
 
+(* HeldCase: the protocols in the order the Go value HOLDS them when MarshalBinary is called
+   (however it came to hold them: New, Swap, the caller reordering the slice it gave to New,
+   a failed UnmarshalBinary), what MarshalBinary wrote, what UnmarshalBinary made of that,
+   and Protocols() afterwards (MarshalBinary sorts the receiver) *)
+Inductive held_case := HeldCase (held : list proto) (m : obs bytes) (d : obs (list proto)) (after : list N).
+Definition held_case_ok (c : held_case) : bool :=
+  match c with
+  | HeldCase held m d after =>
+    obs_match bytes_eqb (Ok (marshal held)) m
+    && obs_match protos_eqb (unmarshal (marshal held)) d
+    && list_eqb N.eqb (protocols (new held)) after
+  end.
+
 Inductive lim_case := LimGsLink (n : N) (ok : bool).
 Definition lim_case_ok (c : lim_case) : bool :=
   match c with LimGsLink n ok => Bool.eqb (n <=? gs_link_max) ok end.
